@@ -391,7 +391,12 @@ def cases_prune(rng, td, origin, radii=(0, 1, 2, 3, 4), all_singles=True, n_sets
         s = rng.choice(starts)
         starts.append(s + s[:1])          # a start node listed twice
     for S in starts:
-        for r in radii:
+        rs = list(radii)
+        if rng.random() < 0.08:
+            # radii far beyond the diameter: float32 walk counts would overflow (inf, nan) if the
+            # implementation accumulated them; the property speaks of all radii
+            rs.append(rng.choice([40, 110, 130, 300]))
+        for r in rs:
             out = call_impl(impl_prune, td, S, r)
             cases.append(Case([Atom("C18"), Atom("prune"), td, S, r], out, meta={"origin": origin},
                               nontrivial_key=("p", sx(td), tuple(S), r),
@@ -426,10 +431,12 @@ def float32_probe(r):
     kept = None if isinstance(out, ImplError) else len(out[0])
     r.notes["float32_saturation_probe"] = {
         "graph": "K_%d" % n, "radius": rad, "rows_kept_by_real_prune": kept, "rows_within_radius": n,
-        "not_modelled": "float32 walk counts overflow to inf and inf*0 = nan in torch.matmul; the model uses Nat"}
+        "note": "before the repair 756ce97 float32 walk counts overflowed to inf and inf*0 = nan in torch.matmul (0 rows kept); the model counts in Nat"}
     r.extra_cov["float32_saturation_probe"] = r.notes["float32_saturation_probe"]
-    return Case([Atom("C18"), Atom("prune"), td, [0], rad], out, in_domain=False,
-                meta={"origin": "float32-probe"}, tags=("probe_float32_dense_high_radius",))
+    # in domain since the repair 756ce97 (powers clamped to 0/1): "all start sets and radii"
+    return Case([Atom("C18"), Atom("prune"), td, [0], rad], out, in_domain=True,
+                meta={"origin": "float32-probe"}, tags=("probe_float32_dense_high_radius",),
+                nontrivial_key=("p", "K24", 0, rad))
 
 
 def element_sweep(r):
@@ -679,8 +686,8 @@ def run(tier, seed):
         "emit the batch vector (C18.batchOf); exercised on every batch case",
         "networkx node / edge iteration order of the input graph is carried by the request; add_edge semantics of "
         "_build_its are modelled (C18.NxG.addEdge)",
-        "float32 saturation of walk counts in torch prune is not modelled (model counts in Nat); a dense high-radius "
-        "probe reports only (coverage.float32_saturation_probe)",
+        "the model counts walks in unbounded Nat; since the repair 756ce97 the implementation clamps each adjacency power to 0/1, so dense high-radius cases are in domain (K24 at radius 40 and "
+        "radii 40-300 on generated graphs)",
         "custom feature transforms are exercised through three fixed families (C18.nfOf/efOf/nftOf and their Python "
         "mirrors in harness/c18.py); the theorems quantify over all transforms",
     ]
